@@ -57,7 +57,14 @@ def build_map(rng):
     has_b = any(k == "end_boundary" for k, _ in meta)
     area = [(-25.0 * scale, -25.0 * scale), ((15.0 * scale) if has_b else w, -25.0 * scale), ((15.0 * scale) if has_b else w, 25.0 * scale), (-25.0 * scale, 25.0 * scale)]
     area = [rot(p, ang, off) for p in area]
-    return {"t": t, "geoms": geoms, "area": area + [area[0]], "features": meta, "angle": ang}
+    # some maps carry z-coordinates on some or all of their traces (2D and 2.5D layers concatenated): the package strips them before anything else
+    zr = rng.random()
+    zmask = [False] * len(geoms)
+    if zr < 0.12:
+        zmask = [rng.random() < 0.5 for _ in geoms]
+    elif zr < 0.16:
+        zmask = [True] * len(geoms)
+    return {"t": t, "geoms": geoms, "area": area + [area[0]], "features": meta, "angle": ang, "z": zmask}
 
 
 def worker(m):
@@ -68,7 +75,8 @@ def worker(m):
     from fractopo.branches_and_nodes import branches_and_nodes
     from fractopo.tval.trace_validation import Validation
 
-    tr = gpd.GeoDataFrame(geometry=[LineString(g) for g in m["geoms"]])
+    zmask = m.get("z") or [False] * len(m["geoms"])
+    tr = gpd.GeoDataFrame(geometry=[LineString([(x, y, 5.0 + i) for i, (x, y) in enumerate(g)]) if z else LineString(g) for g, z in zip(m["geoms"], zmask)])
     ar = gpd.GeoDataFrame(geometry=[Polygon(m["area"])])
     try:
         v = Validation(tr, ar, "c03", True, SNAP_THRESHOLD=m["t"]).run_validation()
@@ -138,7 +146,7 @@ def mutual_abutment(m) -> bool:
 def s03_accepted(ctx):
     res = StreamResult("S03-accepted", rule="maps of 1..3 isolated near-threshold features (end near a trace interior incl. close to the target's tip, end near an end, end "
                        "near the area boundary; gaps 0..12 x snap, under- and overshoot, 8 orientations incl. axis-parallel, offsets to UTM scale, thresholds 1e-3..1e-1), "
-                       "also onto a target whose nearest vertex (the tip of a hook) is not an end of the abutted segment; filtered through the real Validation; every ACCEPTED map must extract without raising, with no Error branch and I/Y/X nodes terminating 1/3/4 "
+                       "also onto a target whose nearest vertex (the tip of a hook) is not an end of the abutted segment; z-coordinates on some / all traces of one map in six; filtered through the real Validation; every ACCEPTED map must extract without raising, with no Error branch and I/Y/X nodes terminating 1/3/4 "
                        "branches; non-trivial = accepted map with a feature gap below 2 x snap")
     rng = rng_for(ctx.seed, "S03")
     maps = [build_map(rng) for _ in range(budget(ctx.tier, 600, 15000))]
